@@ -8,6 +8,7 @@ let n_le a b = N.leb a b
 let str = string_of_bytes
 let show_n = tok_of_n
 let show_pair (a, b) = tok_of_n a ^ "," ^ tok_of_n b
+let clip300 s = if String.length s > 300 then String.sub s 0 300 ^ "..." else s
 let short_hex b =
   let s = tok_of_bytes b in
   if String.length s > 70 then String.sub s 0 70 ^ "..." else s
@@ -136,7 +137,9 @@ let handle kind c =
            let cur = try Hashtbl.find expect (str name) with Not_found -> n0 in
            Hashtbl.replace expect (str name) (snd (N.div_eucl (N.add cur delta) two64)) in
          for i = 1 to nops do
-           let k = next c in
+           let k0 = next c in
+           (* "F" k: the k-th file-system call of the operation fails *)
+           let plan, k = if k0 = "F" then (let p = next_n c in (Some p, next c)) else (None, k0) in
            let o, impl_res, touched =
              match k with
              | "N" ->
@@ -160,7 +163,7 @@ let handle kind c =
              | k -> failwith ("bad op " ^ k) in
            let limit = next_n c in
            let size = next_n c in
-           let (mr, st') = step !st o in
+           let (mr, st') = step_f !st o plan in
            st := st';
            let ms = res_to_string mr in
            if impl_res <> "any" && ms <> impl_res then
@@ -232,6 +235,75 @@ let handle kind c =
              (let s = show_obs real in if String.length s > 300 then String.sub s 0 300 else s)
              (let s = show_obs spec in if String.length s > 300 then String.sub s 0 300 else s))
     end
+  | "race" ->
+    let meta = next_bytes c in
+    let _present = next c in
+    let init = next_bytes c in
+    let w = next_int c in
+    let progs = List.init w (fun _ ->
+        next_list c (fun c ->
+            let add = next_bool c in
+            let name = next_bytes c in
+            let delta = next_n c in
+            (add, name, delta))) in
+    let sched = next_list c (fun c -> next_int c) in
+    let results = List.init w (fun _ -> next_list c (fun c -> next c)) in
+    let (final, final_sr) = read_file_tok c in
+    let mprogs = List.map (List.map (fun (add, name, delta) -> if add then OpAdd (name, delta) else OpNew name)) progs in
+    (* model: the same schedule on the transition system of Model/LayoutMulti *)
+    (match race meta init mprogs (List.map nat_of_int sched) with
+     | None -> diff "race-header" ~model:"no header for this metadata" ~impl:"-"
+     | Some st ->
+       if st.c_file <> final then
+         diff "race-file-bytes" ~model:(Printf.sprintf "first difference at offset %d (model len %d)"
+                                          (first_diff st.c_file final) (List.length st.c_file))
+           ~impl:(Printf.sprintf "len %d" (List.length final));
+       List.iteri (fun i (wr, res) ->
+           let ms =
+             match wr.c_pc with
+             | CDone -> "open" :: List.concat (List.map (fun r ->
+                 match r with ROk o -> ["ok"; tok_of_n o] | r -> [res_to_string r]) wr.c_res)
+             | CFailed -> ["openfail"]
+             | pc -> ["unfinished-at-pc-" ^ string_of_int (int_of_n (pc_tag pc))] in
+           if ms <> res then
+             diff (Printf.sprintf "race-writer%d" i) ~model:(String.concat " " ms) ~impl:(String.concat " " res))
+         (List.combine st.c_ws results));
+    (* oracles on the real file: well-formed, limit within the file, and an
+       independent reader finds every counter a writer was told it has *)
+    let expect : (string, n) Hashtbl.t = Hashtbl.create 8 in
+    let two64 = n_of_hex "10000000000000000" in
+    List.iter2 (fun prog res ->
+        match res with
+        | "open" :: rest ->
+          let rec go prog rest = match prog, rest with
+            | (add, name, delta) :: p', "ok" :: _ :: r' ->
+              let cur = try Hashtbl.find expect (str name) with Not_found -> n0 in
+              Hashtbl.replace expect (str name)
+                (if add then snd (N.div_eucl (N.add cur delta) two64) else cur);
+              go p' r'
+            | _ :: p', _ :: r' -> go p' r'
+            | _ -> () in
+          go prog rest
+        | _ -> ()) progs results;
+    if List.length final >= 16384 then begin
+      match final_sr with
+      | None -> prop "wf-file" (Printf.sprintf "%d writers creating one file: the result does not follow the v1 layout (%d bytes)" w (List.length final))
+      | Some _ ->
+        let lim = limit_of final in
+        if n_lt (len final) lim then prop "limit-le-size" (Printf.sprintf "limit %s size %d" (show_n lim) (List.length final));
+        (match records_map final_sr with
+         | None -> ()
+         | Some l ->
+           let got = List.sort compare (List.map (fun (k, v) -> (k, tok_of_n v)) l) in
+           let want = List.sort compare (Hashtbl.fold (fun k v acc -> (k, tok_of_n v) :: acc) expect []) in
+           if got <> want then
+             prop "readback"
+               (Printf.sprintf "%d writers creating one file, schedule %s: independent decoder reads %d records, the writers were told they wrote %d: read [%s] want [%s]"
+                  w (String.concat "" (List.map string_of_int sched)) (List.length got) (List.length want)
+                  (clip300 (String.concat ";" (List.map (fun (k, v) -> String.escaped k ^ "=" ^ v) got)))
+                  (clip300 (String.concat ";" (List.map (fun (k, v) -> String.escaped k ^ "=" ^ v) want)))))
+    end else if Hashtbl.length expect > 0 then
+      prop "readback" (Printf.sprintf "file of %d bytes although %d counters were written" (List.length final) (Hashtbl.length expect))
   | k -> diff "unknown-case-kind" ~model:k ~impl:"-"
 
 let () = run_file Sys.argv.(1) handle
